@@ -153,6 +153,12 @@ class PolicyDriver(Harness):
             return p.derive_key(self.s, Mech(K.CKM_ECDH1_DERIVE, ecdh_params(P256_PEER)), hb, out + [(K.CKA_VALUE_LEN, 32)])
         if mech == "enc":
             m = {"aes": K.CKM_AES_ECB_ENCRYPT_DATA, "des3": K.CKM_DES3_ECB_ENCRYPT_DATA}.get(self.cls)
+            if m is not None and hb:
+                # a base key that was itself derived is a generic secret, whatever the class under test
+                rvk, kt = p.get_attr(self.s, hb, K.CKA_KEY_TYPE)
+                want = {"aes": K.CKK_AES, "des3": K.CKK_DES3}[self.cls]
+                if rvk == 0 and kt is not None and int.from_bytes(kt, "little") != want:
+                    m = None
             if m is None:     # generic secrets have no ENCRYPT_DATA mechanism: use the concatenation with data
                 return None
             return p.derive_key(self.s, Mech(m, keyderiv_string(self.rnd(16))), hb, out + [(K.CKA_VALUE_LEN, 16)])
